@@ -55,6 +55,16 @@
                 resolve_in(self.scopes(), name@) is Some ==> r.tuple() == (Ok::<SymbolId, SymbolError>(resolve_in(self.scopes(), name@)->Some_0.0), resolve_in(self.scopes(), name@)->Some_0.1),
                 resolve_in(self.scopes(), name@) is None ==> r.tuple() == (Err::<SymbolId, SymbolError>(SymbolError::MissingBinding), Type::Undefined),
         { unimplemented!() }
+        /// unit SYM: lookup_or_new_binding (an existing, otherwise unused helper): the visible binding if there is one -- nothing
+        /// changes then --, else a new binding in the current scope.  Stated so that an edit that starts using it stays decided.
+        #[verifier::external_body] pub fn lookup_or_new_binding(&mut self, name: &str, typ: &Type) -> (r: SymbolId)
+            requires old(self).wf(),
+            ensures final(self).wf(), final(self).scope_types() == old(self).scope_types(),
+                resolve_in(old(self).scopes(), name@) is Some ==> r == resolve_in(old(self).scopes(), name@)->Some_0.0 && final(self).scopes() == old(self).scopes()
+                    && final(self).trace() == old(self).trace().push(Ev::Lookup(name@)),
+                resolve_in(old(self).scopes(), name@) is None ==> final(self).scopes() == bind_in(old(self).scopes(), name@, (r, *typ))
+                    && final(self).trace() == old(self).trace().push(Ev::Bind(name@, *typ)),
+        { unimplemented!() }
         /// unit SYM: enter_scope (the body panics on ScopeType::Global)
         #[verifier::external_body] pub fn enter_scope(&mut self, scope_type: ScopeType)
             requires old(self).wf(), scope_type != ScopeType::Global,
